@@ -39,6 +39,27 @@ def order_callee_first(cg, scope):
     return order
 
 
+def str_slice_guarded(fn, bb, t):
+    """s[k..] / s[..k] / s[a..b] with constant bounds, dominated by the true edge of s.starts_with(<ASCII literal of length >= bound>):
+    the first len(literal) bytes are ASCII, so every offset up to it is a char boundary within the string."""
+    from . import guards
+    base = df.operand_expr(fn, t["args"][0])
+    rg = df.operand_expr(fn, t["args"][1])
+    if not (isinstance(rg, tuple) and rg[0] == "agg" and "ops::range::Range" in rg[1]):
+        return False
+    bounds = [x for x in rg[3]]
+    if not bounds or not all(isinstance(x, tuple) and x[0] == "const" and isinstance(x[1], int) for x in bounds):
+        return False
+    need = max(x[1] for x in bounds)
+    for g in guards.find_bool_guards(fn, lambda e: df.is_call(e, "<impl str>::starts_with") and len(e[2]) == 2):
+        s_, lit = g["expr"][2]
+        if s_ != base or not (isinstance(lit, tuple) and lit[0] == "const" and isinstance(lit[1], str)):
+            continue
+        if all(ord(ch) < 128 for ch in lit[1]) and len(lit[1]) >= need and bb in cfg.dominated_by_edge(fn, g["true_edge"]):
+            return True
+    return False
+
+
 def library_obligations(prog, scope):
     """One obligation per external call that is panicky / unknown / a print; counts of the reviewed-total and handled ones."""
     from . import libcalls
@@ -62,6 +83,10 @@ def library_obligations(prog, scope):
                 o.libclass = cls
                 o.axiom = None
                 out.append(o)
+            if cls == "panicky" and rp.endswith("for str>::index") and str_slice_guarded(fn, bb, t):
+                counts["total"] = counts.get("total", 0) + 1
+                counts[cls] -= 1
+                continue
             if cls in ("panicky", "unknown", "print"):
                 o = ranges.Obligation(fn, bb, t, "libcall", rp, False, "%s: %s" % (cls, why))
                 o.libclass = cls
